@@ -1,23 +1,28 @@
 (* C08 — Template compilation preserves behaviour (decode, encode, save/load).
    Statements only.
 
-   FULL STATEMENT (not yet proved in general; kept here so that the partial
-   results below are not mistaken for it):
+   FULL STATEMENT:
 
-     compile_exec : forall T, scoped T = true ->
-       forall P (s : ws (io C)), exec_stmts P true (compile T) s ~ walk_list (io_handlers P) io_add_link T s
-       (same values, descriptors, links, bits, or the same error class, the
-        operator registers of the compiled run being irrelevant)
+     compile_exec : forall T, scoped T = true -> ok_c08 T = true ->
+       forall P (s0 with initial registers),
+       exec_stmts P true (compile T) s0 ~ walk_list (io_handlers P) io_add_link T s0
+       (same values, descriptors, links, bits, or the SAME error, the operator
+        registers of the compiled run being irrelevant)
 
-   is FALSE of the faithful model for templates with a marker operator while
-   204YYY is in force (D14) or after 203000 (D5) — see the _refuted theorems,
-   whose witnesses are replayed on the implementation by the check on every run —
-   and differs for zero-count bitmap replications (D19).  What is proved:
-   cache transparency for every cache size and every order of requests, the
-   shape of compiled code for single elements, the two refutations.  The tie
-   model/implementation for compile+exec (and compiled vs. interpreted on the
-   implementation itself) is checked differentially over generated programs. *)
-From PBK Require Import Base Bits Descr Walk Coder Decode Compile CompileRun CompileProofs Cache CacheProofs.
+   is PROVED below (C08_compile_exec_equiv and the corollaries for the four
+   concrete coders) for every template that satisfies the executable side
+   condition [ok_c08] (CompileChk.v: the compiler run with checking handlers).
+   Without the side condition the statement is FALSE of the faithful model and
+   of the implementation: D14 (marker operator while 204YYY is in force), D5
+   (marker after 203000), D19 (bitmap defined by a zero-count delayed
+   replication) and the four further _refuted witnesses at the end of this file
+   (D27 marker while the 222000 status is "processing", D28 zero-count delayed
+   replication of class 33, D29 bitmap completed inside a replication body,
+   D5-loop 203000 inside a replication body) — all satisfy [Compile.scoped].
+   Also proved: cache transparency for every cache size and every order of
+   requests; save/load for code without pseudo descriptors (D7 otherwise). *)
+From PBK Require Import Base Bits Descr Walk Coder Decode Encode Column DecodeC EncodeC Compile CompileRun CompileProofs Cache CacheProofs
+  CompileChk CompileEquivBase CompileEquivInv CompileEquivTop CompileFindings.
 
 (* for any cache size m and any order of earlier requests ks, get_or_compile
    returns exactly what compiling the key afresh returns *)
@@ -57,3 +62,146 @@ Theorem C08_compile_exec_203000_marker_refuted :
     end.
 Proof. exact compile_exec_203000_marker_refuted. Qed.
 Print Assumptions C08_compile_exec_203000_marker_refuted.
+
+
+(* ======================================================================== *)
+(* The general equivalence (CompileEquiv*.v).                                *)
+(*                                                                            *)
+(* [ok_c08 T] (CompileChk.v) is executable: the template compiler run with   *)
+(* checking handlers.  It fails exactly where compiling is not provably       *)
+(* transparent: a marker operator while 204YYY is in force (D14), while the   *)
+(* 222000 status is "processing" (D27) or "waiting" with a class 33 element    *)
+(* among the possible back references, or after a 203000 that cancelled a      *)
+(* definition (D5); a replication whose body does not leave the compile-time registers   *)
+(* as it found them, unless a second compilation of the body (from the         *)
+(* registers left by the first) records the same statements and then leaves    *)
+(* the registers alone, and the count is statically >= 1 (D19 for delayed      *)
+(* replications: accepted only by [ok_c08_nz], for factors that are never 0).  *)
+(* [agree same_io a b]: both runs fail with the SAME error, or both succeed    *)
+(* with the same descriptors, links and primitive state (values, bits).         *)
+(* ======================================================================== *)
+
+(* start states: initial registers, any primitive state, any decoded descriptors and
+   links so far provided no plain class 33 element descriptor is among them (in
+   particular the empty lists of a fresh subset) ... *)
+Theorem C08_compile_exec_equiv :
+  forall (C : Type) (P : prims C) (T : descs),
+  Compile.scoped T = true -> ok_c08 T = true ->
+  exists code, compile T = Ok code /\
+    forall c0 : io C, Forall no33_dd (io_dd c0) ->
+      agree same_io (walk_list (io_handlers P) io_add_link T (mkWs regs0 c0))
+                    (exec_stmts P true code (mkWs regs0 c0)).
+Proof. intros C P T _. exact (compile_exec_equiv P T). Qed.
+Print Assumptions C08_compile_exec_equiv.
+
+(* ... and every start state with initial registers, under [ok_c08_any] (which also
+   rejects a marker operator while the 222000 status is "waiting") *)
+Theorem C08_compile_exec_equiv_any_start :
+  forall (C : Type) (P : prims C) (T : descs),
+  Compile.scoped T = true -> ok_c08_any T = true ->
+  exists code, compile T = Ok code /\
+    forall c0 : io C,
+      agree same_io (walk_list (io_handlers P) io_add_link T (mkWs regs0 c0))
+                    (exec_stmts P true code (mkWs regs0 c0)).
+Proof. intros C P T _. exact (compile_exec_equiv_any P T). Qed.
+Print Assumptions C08_compile_exec_equiv_any_start.
+
+Example C08_compile_exec_equiv_any_start_nonvacuous :
+  Compile.scoped T_ok = true /\ ok_c08_any T_ok = true /\
+  ok_c08 T_waiting = true /\ ok_c08_any T_waiting = false.
+Proof. vm_compute. repeat split. Qed.
+
+(* the hypotheses hold for a template with operators, nested replication, new
+   reference values, a bitmap, class 33 attributes and a marker operator *)
+Example C08_compile_exec_equiv_nonvacuous :
+  Compile.scoped T_ok = true /\ ok_c08 T_ok = true /\
+  is_ok (decode_uncompressed T_ok 2 (repeat false 400)) = true.
+Proof. vm_compute. repeat split. Qed.
+
+Theorem C08_compile_exec_equiv_nonzero_factors :
+  forall (C : Type) (P : prims C) (T : descs),
+  Compile.scoped T = true -> ok_c08_nz T = true ->
+  exists code, compile T = Ok code /\
+    forall c0 : io C, Forall no33_dd (io_dd c0) ->
+      agree same_io (walk_list (io_handlers (nz_prims P)) io_add_link T (mkWs regs0 c0))
+                    (exec_stmts (nz_prims P) true code (mkWs regs0 c0)).
+Proof. intros C P T _. exact (compile_exec_equiv_nz P T). Qed.
+Print Assumptions C08_compile_exec_equiv_nonzero_factors.
+
+Example C08_compile_exec_equiv_nonzero_factors_nonvacuous :
+  Compile.scoped T_d19 = true /\ ok_c08 T_d19 = false /\ ok_c08_nz T_d19 = true.
+Proof. vm_compute. repeat split. Qed.
+
+Theorem C08_decode_uncompressed_compiled :
+  forall T n b, Compile.scoped T = true -> ok_c08 T = true ->
+  decode_uncompressed_c T n b = decode_uncompressed T n b.
+Proof. intros T n b _. exact (decode_uncompressed_c_eq T n b). Qed.
+Print Assumptions C08_decode_uncompressed_compiled.
+
+Theorem C08_decode_compressed_compiled :
+  forall T n b, Compile.scoped T = true -> ok_c08 T = true ->
+  decode_compressed_c T n b = decode_compressed T n b.
+Proof. intros T n b _. exact (decode_compressed_c_eq T n b). Qed.
+Print Assumptions C08_decode_compressed_compiled.
+
+Theorem C08_encode_uncompressed_compiled :
+  forall T vals, Compile.scoped T = true -> ok_c08 T = true ->
+  encode_uncompressed_c T vals = encode_uncompressed T vals.
+Proof. intros T vals _. exact (encode_uncompressed_c_eq T vals). Qed.
+Print Assumptions C08_encode_uncompressed_compiled.
+
+Theorem C08_encode_compressed_compiled :
+  forall T vals, Compile.scoped T = true -> ok_c08 T = true ->
+  encode_compressed_c T vals = encode_compressed T vals.
+Proof. intros T vals _. exact (encode_compressed_c_eq T vals). Qed.
+Print Assumptions C08_encode_compressed_compiled.
+
+(* the side condition rejects the two refuted witnesses above *)
+Theorem C08_ok_c08_rejects_findings : ok_c08 T_d14 = false /\ ok_c08 T_d5 = false.
+Proof. exact (conj ok_c08_rejects_d14 ok_c08_rejects_d5). Qed.
+Print Assumptions C08_ok_c08_rejects_findings.
+
+(* ---- save / load -------------------------------------------------------------------- *)
+Theorem C08_decode_loaded_template :
+  forall lookup_b T n b, Compile.scoped T = true -> ok_c08 T = true -> reload_ok lookup_b T = true ->
+  decode_uncompressed_l lookup_b T n b = decode_uncompressed T n b.
+Proof. intros lookup_b T n b _. exact (decode_uncompressed_l_eq lookup_b T n b). Qed.
+Print Assumptions C08_decode_loaded_template.
+
+Example C08_decode_loaded_template_nonvacuous :
+  Compile.scoped T_reload = true /\ ok_c08 T_reload = true /\ reload_ok lookup_ex T_reload = true.
+Proof. vm_compute. repeat split. Qed.
+
+(* ---- outside the side condition: compiled and interpreted differ --------------------- *)
+Theorem C08_compile_exec_marker_qa_refuted :
+  exists T n b, Compile.scoped T = true /\ ok_c08 T = false /\
+    links_vals (decode_uncompressed T n b) = Ok ([[(8, 0); (9, 1)]]%N,
+       [[VDec 100 1; VDec 200 1; VDec 300 1; VInt 0; VInt 0; VInt 0; VInt 0; VInt 0; VInt 50; VDec 77 1; VInt 60]]) /\
+    links_vals (decode_uncompressed_c T n b) = Ok ([[(8, 0); (9, 1); (10, 2)]]%N,
+       [[VDec 100 1; VDec 200 1; VDec 300 1; VInt 0; VInt 0; VInt 0; VInt 0; VInt 0; VInt 50; VDec 77 1; VInt 60]]).
+Proof. exact compile_exec_marker_qa_refuted. Qed.
+Print Assumptions C08_compile_exec_marker_qa_refuted.
+
+Theorem C08_compile_exec_zero_count_qa_refuted :
+  exists T n b, Compile.scoped T = true /\ ok_c08 T = false /\
+    links_vals (decode_uncompressed T n b) = Ok ([[(8, 0)]]%N,
+       [[VDec 100 1; VDec 200 1; VInt 0; VInt 0; VInt 0; VInt 0; VInt 0; VDec 300 1; VInt 60]]) /\
+    links_vals (decode_uncompressed_c T n b) = Ok ([[]],
+       [[VDec 100 1; VDec 200 1; VInt 0; VInt 0; VInt 0; VInt 0; VInt 0; VDec 300 1; VInt 60]]).
+Proof. exact compile_exec_zero_count_qa_refuted. Qed.
+Print Assumptions C08_compile_exec_zero_count_qa_refuted.
+
+Theorem C08_compile_exec_bitmap_in_loop_refuted :
+  exists T n b, Compile.scoped T = true /\ ok_c08 T = false /\
+    links_vals (decode_uncompressed T n b) = Ok ([[(8, 1)]]%N,
+       [[VDec 100 1; VDec 200 1; VInt 0; VInt 0; VInt 0; VDec 300 1; VInt 0; VDec 400 1; VDec 77 1]]) /\
+    links_vals (decode_uncompressed_c T n b) = Err ELib.
+Proof. exact compile_exec_bitmap_in_loop_refuted. Qed.
+Print Assumptions C08_compile_exec_bitmap_in_loop_refuted.
+
+Theorem C08_compile_exec_203000_in_loop_refuted :
+  exists T n b, Compile.scoped T = true /\ ok_c08 T = false /\
+    links_vals (decode_uncompressed T n b) = Ok ([[]], [[VInt 5; VInt 1005; VInt 7; VInt 600; VInt 7]]) /\
+    links_vals (decode_uncompressed_c T n b) = Ok ([[]], [[VInt 5; VInt 1005; VInt 7; VInt 1005; VInt 7]]).
+Proof. exact compile_exec_203000_in_loop_refuted. Qed.
+Print Assumptions C08_compile_exec_203000_in_loop_refuted.
